@@ -4,7 +4,7 @@ from __future__ import annotations
 import importlib
 
 OP_MODULES = ["contracts.c05", "contracts.c06", "contracts.c11", "contracts.c13", "contracts.c40", "contracts.c17", "contracts.c17q",
-              "contracts.c19"]
+              "contracts.c19", "contracts.c18"]
 MONITOR_MODULES = ["contracts.c26"]
 
 
@@ -73,6 +73,7 @@ def lockset_units(prop):
 #: which unit families each property draws on
 FAMILIES = {
     "C19": ["op", "grouping"],
+    "C18": ["op", "grouping", "toggle"],
     "C36": ["timeconv"],
     "C38": ["marble"],
     "C41": ["bridge"],
@@ -136,6 +137,8 @@ def units_for(prop, tier):
         us.append({"runner": "timedextra", "prop": prop, "id": f"timed-operators-not-under-contract/{prop}"})
     if "grouping" in fams:
         us.append({"runner": "grouping", "prop": prop, "id": f"grouping-wiring/{prop}"})
+    if "toggle" in fams:
+        us.append({"runner": "toggle", "prop": prop, "id": "toggle-windows/C18"})
     if "marble" in fams:
         us.append({"runner": "marble", "prop": prop, "id": "reactivex/observable/marbles.py::parse+from_marbles+hot"})
     if "bridge" in fams:
